@@ -244,7 +244,29 @@ pub fn run_worker(space: &dyn Space, args: &[String]) -> i32 {
 // ------------------------------------------------------------------------------------------------
 // parent side
 
+/// CPU seconds (user+system) consumed so far by process `pid` (0.0 if unreadable).
+fn cpu_seconds(pid: u32) -> f64 {
+    let txt = match std::fs::read_to_string(format!("/proc/{}/stat", pid)) {
+        Ok(t) => t,
+        Err(_) => return 0.0,
+    };
+    // fields after the closing parenthesis of comm: state is field 3, utime 14, stime 15
+    let rest = match txt.rfind(')') {
+        Some(p) => &txt[p + 1..],
+        None => return 0.0,
+    };
+    let f: Vec<&str> = rest.split_whitespace().collect();
+    if f.len() < 13 {
+        return 0.0;
+    }
+    let ut: f64 = f[11].parse().unwrap_or(0.0);
+    let st: f64 = f[12].parse().unwrap_or(0.0);
+    let hz = unsafe { libc::sysconf(libc::_SC_CLK_TCK) } as f64;
+    (ut + st) / if hz > 0.0 { hz } else { 100.0 }
+}
+
 struct Slot {
+    cpu_at_change: f64,
     shard: u64,
     child: Child,
     prog_path: String,
@@ -304,7 +326,7 @@ fn spawn_worker(ctx: &Ctx, space_id: &str, shard: u64, nshards: u64, start: u64,
         }
         let _ = tx2.send(Msg::Eof(shard));
     });
-    Slot { shard, child, prog_path, last_tick: 0, last_change: Instant::now(), done: false, started: Instant::now() }
+    Slot { cpu_at_change: 0.0, shard, child, prog_path, last_tick: 0, last_change: Instant::now(), done: false, started: Instant::now() }
 }
 
 pub fn run_parent(ctx: &Ctx, space_id: &str, space: &dyn Space, cfg: &PoolCfg) -> PoolResult {
@@ -406,6 +428,7 @@ pub fn run_parent(ctx: &Ctx, space_id: &str, space: &dyn Space, cfg: &PoolCfg) -
             if tick != slots[idx].last_tick {
                 slots[idx].last_tick = tick;
                 slots[idx].last_change = Instant::now();
+                slots[idx].cpu_at_change = cpu_seconds(slots[idx].child.id());
             }
             let exited = matches!(slots[idx].child.try_wait(), Ok(Some(_)));
             if exited && eof.contains(&shard) && !slots[idx].done {
@@ -435,9 +458,19 @@ pub fn run_parent(ctx: &Ctx, space_id: &str, space: &dyn Space, cfg: &PoolCfg) -
                 slots[idx] = s;
                 continue;
             }
-            let limit = if tick == 0 { startup_allowance } else { cfg.case_timeout };
+            // A case is hung when the worker has burnt `case_timeout` of CPU time without progress (a loaded
+            // machine must not turn a starved, healthy worker into a "hang"), or - for workers that block
+            // without using CPU - when 10 x case_timeout (at least 120 s) of wall time passed without progress.
             let since = if tick == 0 { slots[idx].started.elapsed() } else { slots[idx].last_change.elapsed() };
-            if !exited && !slots[idx].done && since > limit {
+            let hung = if tick == 0 {
+                since > startup_allowance
+            } else if since > cfg.case_timeout {
+                let cpu = cpu_seconds(slots[idx].child.id()) - slots[idx].cpu_at_change;
+                cpu > cfg.case_timeout.as_secs_f64() || since > (cfg.case_timeout * 10).max(Duration::from_secs(120))
+            } else {
+                false
+            };
+            if !exited && !slots[idx].done && hung {
                 let note = read_note(&slots[idx].prog_path);
                 let _ = slots[idx].child.kill();
                 let _ = slots[idx].child.wait();
